@@ -5,6 +5,9 @@ From Ergo Require Import Common.Base App.Seq App.Model.
 
 Definition b2n (b : bool) : nat := if b then 1 else 0.
 
+Lemma b2n_le1 b : b2n b <= 1.
+Proof. destruct b; cbn; lia. Qed.
+
 Lemma count_cons f p l : count f (p :: l) = b2n (f p) + count f l.
 Proof. unfold count. cbn [filter]. destruct (f p); reflexivity. Qed.
 
@@ -55,113 +58,271 @@ Proof.
 Qed.
 
 (* ---- the invariant -------------------------------------------------------------------- *)
-(* cd = members of this run that left the node but not yet the group, sl = the same for older
-   runs, di = terminate calls in flight, se = those that saw the group empty, fi = the finaliser
-   between its swap and the end of the callback, pt = winners of Running->Stopping that have not
-   yet told the members.  Stated in linear arithmetic over the state code so that lia decides
-   every case. *)
+(* Stated in linear arithmetic over the state code and pc-class counts so that lia decides every
+   case; proved in five layers (each lia call sees only the facts it needs):
+   A the `starting` flag and the start call, B the members, C1 the Start callback, C2 the
+   Terminate callback, D who has been told.
+   cd = members of this run that left the node but not yet the group, sl = the same for older
+   runs, di = terminate / finalise calls in flight, pf = threads that know a.starting == 0,
+   se = those that saw the group empty after that, fi = the finaliser between its swap and the end
+   of the callback, pt = winners of Running->Stopping that have not yet told the members,
+   sp = start calls between their CAS and the reset of a.starting, rbc = of which are past the
+   roll-back's store of Loaded, sd = of which are past the Start callback. *)
 Definition stc (x : ast) : nat := match x with SUnl => 0 | SL => 1 | SR => 2 | SS => 3 end.
 
-Definition InvN (s : shared) (cd sl di se fi pt : nat) : Prop :=
-  na s + cd = ng s /\
-  (stc (st s) <= 1 -> ng s = 0) /\
-  (se > 0 -> ng s = 0) /\
-  (b2n (stopped s) = 1 -> ng s = 0) /\
-  fi + runterms s <= 1 /\
-  (stc (st s) >= 2 -> fi + runterms s = 0) /\
-  sl = 0 /\
-  (stc (st s) = 3 -> b2n (toldall s) = 1 \/ pt >= 1) /\
-  (stc (st s) = 0 -> di = 0) /\
-  (fi >= 1 -> stc (st s) = 1) /\
-  cd <= di /\ se <= di /\ fi <= di.
+Definition InvA (s : shared) (pf sp lp rbc : nat) : Prop :=
+  rbc <= sp /\ lp <= sp /\ b2n (starting s) = sp /\
+  (lp > 0 -> stc (st s) >= 2) /\ (rbc > 0 -> stc (st s) = 1) /\ (pf > 0 -> b2n (starting s) = 0).
 
-Definition Inv (c : cfg) : Prop :=
-  InvN (sh c) (count (deleter (gen (sh c))) (thr c)) (count (stale (gen (sh c))) (thr c))
-       (count die_inflight (thr c)) (count sawempty (thr c)) (count finaliser (thr c))
-       (count pretell (thr c)).
+Definition InvB (s : shared) (cd sl di dz pf se : nat) : Prop :=
+  na s + cd = ng s /\ sl = 0 /\ cd <= di /\ se <= pf /\
+  (stc (st s) <= 1 -> ng s = 0 \/ b2n (rbk s) = 1) /\
+  (se > 0 -> ng s = 0 \/ b2n (rbk s) = 1) /\
+  (stc (st s) = 0 -> dz = 0 /\ na s = 0).
 
+Definition InvC1 (s : shared) (ps sd : nat) : Prop :=
+  (ps > 0 -> runstarts s = 0) /\ (sd > 0 -> runstarts s = 1) /\
+  (b2n (starting s) = 0 -> stc (st s) >= 2 -> runstarts s = 1) /\ runstarts s <= 1.
+
+Definition InvC2 (s : shared) (pf fi : nat) : Prop :=
+  fi <= pf /\ fi + runterms s <= 1 /\ (stc (st s) >= 2 -> fi + runterms s = 0) /\
+  (fi >= 1 -> stc (st s) = 1) /\ (b2n (stopped s) = 1 -> stc (st s) <= 1) /\
+  (fi + runterms s >= 1 -> runstarts s = 1).
+
+Definition InvD (s : shared) (pt : nat) : Prop :=
+  stc (st s) = 3 -> b2n (toldall s) = 1 \/ pt >= 1.
+
+Definition IA (c : cfg) := InvA (sh c) (count pastflag (thr c)) (count starter (thr c)) (count inloop (thr c)) (count rbclear (thr c)).
+Definition IB (c : cfg) := InvB (sh c) (count (deleter (gen (sh c))) (thr c)) (count (stale (gen (sh c))) (thr c))
+                                (count die_inflight (thr c)) (count call_inflight (thr c)) (count pastflag (thr c))
+                                (count sawempty (thr c)).
+Definition IC1 (c : cfg) := InvC1 (sh c) (count prestart (thr c)) (count sdone (thr c)).
+Definition IC2 (c : cfg) := InvC2 (sh c) (count pastflag (thr c)) (count finaliser (thr c)).
+Definition ID (c : cfg) := InvD (sh c) (count pretell (thr c)).
+Definition Inv (c : cfg) : Prop := IA c /\ IB c /\ IC1 c /\ IC2 c /\ ID c.
+
+Lemma deleter_busy g p : deleter g p = true -> busy p = true.
+Proof. destruct p; cbn; congruence. Qed.
+Lemma die_busy p : die_inflight p = true -> busy p = true.
+Proof. destruct p; cbn; congruence. Qed.
+Lemma pastflag_busy p : pastflag p = true -> busy p = true.
+Proof. destruct p; cbn; congruence. Qed.
+Lemma starter_busy p : starter p = true -> busy p = true.
+Proof. destruct p; cbn; congruence. Qed.
+Lemma call_busy p : call_inflight p = true -> busy p = true.
+Proof. destruct p; cbn; congruence. Qed.
 Lemma deleter_inflight g p : deleter g p = true -> die_inflight p = true.
 Proof. destruct p; cbn; congruence. Qed.
 Lemma stale_inflight g p : stale g p = true -> die_inflight p = true.
 Proof. destruct p; cbn; congruence. Qed.
-Lemma sawempty_inflight p : sawempty p = true -> die_inflight p = true.
+Lemma sawempty_pastflag p : sawempty p = true -> pastflag p = true.
 Proof. destruct p; cbn; congruence. Qed.
-Lemma finaliser_inflight p : finaliser p = true -> die_inflight p = true.
+Lemma finaliser_pastflag p : finaliser p = true -> pastflag p = true.
 Proof. destruct p; cbn; congruence. Qed.
+Lemma rbclear_starter p : rbclear p = true -> starter p = true.
+Proof. destruct p; cbn; congruence. Qed.
+Lemma sdone_starter p : sdone p = true -> starter p = true.
+Proof. destruct p; cbn; congruence. Qed.
+Lemma inloop_starter p : inloop p = true -> starter p = true.
+Proof. destruct p; cbn; congruence. Qed.
+Lemma prestart_starter p : prestart p = true -> starter p = true.
+Proof. destruct p; cbn; congruence. Qed.
+
+Lemma initial_not_busy threads : forallb initial_pc threads = true -> count busy threads = 0.
+Proof.
+  intros H. induction threads as [|p l IH]; [reflexivity|]. cbn [forallb] in H. apply andb_true_iff in H as [H1 H2].
+  rewrite count_cons, (IH H2). destruct p; cbn in H1; try discriminate; reflexivity.
+Qed.
 
 Lemma Inv_init n m threads : forallb initial_pc threads = true -> Inv (init_cfg n m threads).
 Proof.
-  intros H.
-  assert (Hz : count die_inflight threads = 0).
-  { induction threads as [|p l IH]; [reflexivity|]. cbn [forallb] in H. apply andb_true_iff in H as [H1 H2].
-    rewrite count_cons, (IH H2). destruct p; cbn in H1; try discriminate; reflexivity. }
-  pose proof (count_le (deleter 0) die_inflight threads (deleter_inflight 0)).
+  intros H. pose proof (initial_not_busy threads H) as Hz.
+  pose proof (count_le (deleter 0) busy threads (deleter_busy 0)).
   pose proof (count_le (stale 0) die_inflight threads (stale_inflight 0)).
-  pose proof (count_le sawempty die_inflight threads sawempty_inflight).
-  pose proof (count_le finaliser die_inflight threads finaliser_inflight).
-  unfold Inv, InvN, init_cfg, init_shared; cbn [sh thr st na ng gen stopped runterms toldall stc b2n].
-  lia.
+  pose proof (count_le die_inflight busy threads die_busy).
+  pose proof (count_le pastflag busy threads pastflag_busy).
+  pose proof (count_le starter busy threads starter_busy).
+  pose proof (count_le call_inflight busy threads call_busy).
+  pose proof (count_le sawempty pastflag threads sawempty_pastflag).
+  pose proof (count_le finaliser pastflag threads finaliser_pastflag).
+  pose proof (count_le rbclear starter threads rbclear_starter).
+  pose proof (count_le sdone starter threads sdone_starter).
+  pose proof (count_le inloop starter threads inloop_starter).
+  pose proof (count_le prestart starter threads prestart_starter).
+  unfold Inv, IA, IB, IC1, IC2, ID, InvA, InvB, InvC1, InvC2, InvD, init_cfg, init_shared;
+    cbn [sh thr st na ng gen stopped runterms toldall starting runstarts rbk stc b2n].
+  repeat split; lia.
 Qed.
 
 Ltac shared_simpl :=
-  cbn [st na ng gen mode reason stopped toldall nmem starts runterms terms
-       upd_st upd_mode upd_reason upd_told upd_na upd_ng upd_closed add_term started rolled_back] in *.
-Ltac cls := cbn [b2n negb andb stc deleter stale die_inflight sawempty finaliser pretell stop_inflight] in *.
+  cbn [st na ng gen mode reason stopped toldall nmem starts runterms terms starting runstarts rbk
+       upd upd_st upd_mode upd_reason upd_told upd_na upd_del upd_closed upd_starting add_term add_start
+       run_begin spawned rolled_back] in *.
+Ltac cls := cbn [b2n negb andb orb stc deleter stale die_inflight stop_inflight start_inflight call_inflight busy pastflag
+                 sawempty finaliser pretell starter inloop prestart rbclear sdone] in *.
 (* one case: the step is known, everything is linear arithmetic *)
-Ltac fin := unfold InvN in *; shared_simpl;
+Ltac fin := unfold InvA, InvB, InvC1, InvC2, InvD in *; shared_simpl;
   repeat match goal with Hx : st _ = _ |- _ => rewrite Hx in *; clear Hx end;
   repeat match goal with Hx : stopped _ = _ |- _ => rewrite Hx in *; clear Hx end;
+  repeat match goal with Hx : starting _ = _ |- _ => rewrite Hx in *; clear Hx end;
+  repeat match goal with Hx : rbk _ = _ |- _ => rewrite Hx in *; clear Hx end;
   cls; lia.
 
-Lemma Inv_step c i c' : Inv c -> adm c i = true -> step c i = Some c' -> Inv c'.
+(* the case analysis over the pc of the stepping thread, the same for every layer *)
+Ltac step_cases s p Hp Hadm :=
+  destruct p; cbn [step_pc] in Hp; try discriminate;
+  [ (* S_cas *)
+    apply andb_true_iff in Hadm as [Hd0 Hs0]; apply Nat.eqb_eq in Hd0; apply Nat.eqb_eq in Hs0;
+    destruct (st s) eqn:Est; inversion Hp; subst; fin
+  | (* S_spawn *)
+    match type of Hp with context [?k <? nmem s] => destruct (k <? nmem s) end;
+    [match type of Hp with context [fails_at ?f ?k] => destruct (fails_at f k) end|]; inversion Hp; subst; fin
+  | (* S_chk *) destruct (st s) eqn:Est; inversion Hp; subst; fin
+  | (* S_rbkill *) inversion Hp; subst; fin
+  | (* S_rollback *) inversion Hp; subst; unfold rolled_back; destruct (Nat.ltb_spec 0 (ng s)); fin
+  | (* S_rbclear *) inversion Hp; subst; fin
+  | (* S_cb *) inversion Hp; subst; fin
+  | (* S_done *) inversion Hp; subst; fin
+  | (* S_len *) destruct (Nat.ltb_spec 0 (ng s)); inversion Hp; subst; fin
+  | (* P_cas *) destruct (st s) eqn:Est; inversion Hp; subst; fin
+  | (* P_load *)
+    destruct (st s) eqn:Est;
+    try match type of Hp with context [if ?f then _ else _] => destruct f end; inversion Hp; subst; fin
+  | inversion Hp; subst; fin
+  | inversion Hp; subst; fin
+  | inversion Hp; subst; fin
+  | (* P_wait *)
+    destruct (stopped s) eqn:Ecl;
+    [|match type of Hp with context [match ?k with 0 => _ | S _ => _ end] => destruct k end]; inversion Hp; subst; fin
+  | (* D_die *) destruct (na s) eqn:Ena; [discriminate|]; inversion Hp; subst; cls;
+    rewrite ?Nat.eqb_refl in *; fin
+  | (* D_delete *)
+    cls;
+    match type of Hp with context [?g =? gen s] => destruct (Nat.eqb_spec g (gen s)) as [Eg|Eg] end;
+    cbn [negb andb] in *;
+    [ destruct (Nat.ltb_spec 0 (ng s)) | ]; inversion Hp; subst; unfold upd_del;
+    [ destruct (rbk s) eqn:Erbk; destruct (Nat.ltb_spec 0 (pred (ng s))) | | ]; fin
+  | (* D_mode *)
+    match type of Hp with context [rule_fires ?m ?r] => destruct (rule_fires m r) end; inversion Hp; subst; fin
+  | (* D_stopping *) destruct (st s) eqn:Est; inversion Hp; subst; fin
+  | inversion Hp; subst; fin
+  | inversion Hp; subst; fin
+  | (* D_starting *) destruct (starting s) eqn:Esg; inversion Hp; subst; fin
+  | (* D_len *) destruct (Nat.ltb_spec 0 (ng s)); inversion Hp; subst; fin
+  | inversion Hp; subst; fin
+  | (* D_loaded *) destruct (st s) eqn:Est; inversion Hp; subst; fin
+  | inversion Hp; subst; fin
+  | inversion Hp; subst; fin
+  | (* U_cas *)
+    apply andb_true_iff in Hadm as [Hd0 Hs0]; apply Nat.eqb_eq in Hd0; apply Nat.eqb_eq in Hs0;
+    destruct (st s) eqn:Est; inversion Hp; subst; fin ].
+
+Ltac open_step c i c' Hs Hadm p s' p' Hn Hp Hcnt Hge :=
+  destruct (step_shape c i c' Hs) as (p & s' & p' & Hn & Hp & Hsh & Hcnt & Hge);
+  unfold adm in Hadm; rewrite Hn in Hadm.
+
+Lemma IA_step c i c' : IA c -> adm c i = true -> step c i = Some c' -> IA c'.
 Proof.
-  intros HI Hadm Hs.
-  destruct (step_shape c i c' Hs) as (p & s' & p' & Hn & Hp & Hsh & Hcnt & Hge).
-  unfold Inv in *. rewrite Hsh. clear Hsh.
-  unfold adm in Hadm. rewrite Hn in Hadm.
+  intros HA Hadm Hs. open_step c i c' Hs Hadm p s' p' Hn Hp Hcnt Hge.
+  unfold IA in *. rewrite Hsh. clear Hsh.
+  pose proof (count_le pastflag busy (thr c) pastflag_busy) as Bpf.
+  pose proof (count_le starter busy (thr c) starter_busy) as Bsp.
+  pose proof (count_le rbclear starter (thr c') rbclear_starter) as Lrb.
+  pose proof (count_le inloop starter (thr c') inloop_starter) as Llp.
   remember (sh c) as s eqn:Heqs. clear Heqs.
+  pose proof (b2n_le1 (starting s)) as Hb1.
+  pose proof (Hcnt pastflag) as Epf. pose proof (Hcnt starter) as Esp.
+  pose proof (Hcnt rbclear) as Erb. pose proof (Hcnt inloop) as Elp.
+  pose proof (Hge pastflag) as Gpf. pose proof (Hge starter) as Gsp.
+  pose proof (Hge rbclear) as Grb. pose proof (Hge inloop) as Glp.
+  clear Hcnt Hge Hs Hn.
+  step_cases s p Hp Hadm.
+Qed.
+
+(* facts of layer A that the other layers use, for the state before and after the step *)
+Lemma IB_step c i c' : IA c -> IA c' -> IB c -> adm c i = true -> step c i = Some c' -> IB c'.
+Proof.
+  intros HA HA' HB Hadm Hs. open_step c i c' Hs Hadm p s' p' Hn Hp Hcnt Hge.
+  unfold IA, IB in *. rewrite Hsh in *. clear Hsh.
+  pose proof (count_le (deleter (gen (sh c))) busy (thr c) (deleter_busy _)) as Bcd.
+  pose proof (count_le die_inflight busy (thr c) die_busy) as Bdi.
+  pose proof (count_le call_inflight busy (thr c) call_busy) as Bdz.
+  pose proof (count_le pastflag busy (thr c) pastflag_busy) as Bpf.
+  pose proof (count_le starter busy (thr c) starter_busy) as Bsp.
+  remember (sh c) as s eqn:Heqs. clear Heqs.
+  pose proof (b2n_le1 (starting s)) as Hb1. pose proof (b2n_le1 (rbk s)) as Hb2.
+  pose proof (Hcnt call_inflight) as Edz. pose proof (Hge call_inflight) as Gdz.
   pose proof (Hcnt (deleter (gen s))) as Ecd. pose proof (Hcnt (stale (gen s))) as Esl.
-  pose proof (Hcnt die_inflight) as Edi. pose proof (Hcnt sawempty) as Ese.
-  pose proof (Hcnt finaliser) as Efi. pose proof (Hcnt pretell) as Ept.
+  pose proof (Hcnt die_inflight) as Edi. pose proof (Hcnt pastflag) as Epf. pose proof (Hcnt sawempty) as Ese.
+  pose proof (Hcnt starter) as Esp. pose proof (Hcnt inloop) as Elp.
   pose proof (Hcnt (deleter (S (gen s)))) as Ecd'. pose proof (Hcnt (stale (S (gen s)))) as Esl'.
   pose proof (Hge (deleter (gen s))) as Gcd. pose proof (Hge (stale (gen s))) as Gsl.
-  pose proof (Hge die_inflight) as Gdi. pose proof (Hge sawempty) as Gse.
-  pose proof (Hge finaliser) as Gfi. pose proof (Hge pretell) as Gpt.
+  pose proof (Hge die_inflight) as Gdi. pose proof (Hge pastflag) as Gpf. pose proof (Hge sawempty) as Gse.
+  pose proof (Hge starter) as Gsp. pose proof (Hge inloop) as Glp.
   pose proof (count_le (deleter (S (gen s))) die_inflight (thr c') (deleter_inflight _)) as Ld'.
   pose proof (count_le (stale (S (gen s))) die_inflight (thr c') (stale_inflight _)) as Ls'.
   pose proof (count_le (deleter (gen s)) die_inflight (thr c') (deleter_inflight _)) as Ld2.
-  pose proof (count_le sawempty die_inflight (thr c') sawempty_inflight) as Lse.
-  pose proof (count_le finaliser die_inflight (thr c') finaliser_inflight) as Lfi.
+  pose proof (count_le sawempty pastflag (thr c') sawempty_pastflag) as Lse.
+  clear Hcnt Hge Hs Hn HA'.
+  destruct HA as (_ & _ & A3 & A4 & _ & A6).
+  step_cases s p Hp Hadm.
+Qed.
+
+Lemma IC1_step c i c' : IA c -> IC1 c -> adm c i = true -> step c i = Some c' -> IC1 c'.
+Proof.
+  intros HA HC Hadm Hs. open_step c i c' Hs Hadm p s' p' Hn Hp Hcnt Hge.
+  unfold IA, IC1 in *. rewrite Hsh in *. clear Hsh.
+  pose proof (count_le starter busy (thr c) starter_busy) as Bsp.
+  pose proof (count_le sdone starter (thr c) sdone_starter) as Lsd.
+  pose proof (count_le prestart starter (thr c) prestart_starter) as Lps.
+  pose proof (count_le inloop starter (thr c) inloop_starter) as Llp.
+  remember (sh c) as s eqn:Heqs. clear Heqs.
+  pose proof (b2n_le1 (starting s)) as Hb1.
+  pose proof (Hcnt starter) as Esp. pose proof (Hcnt sdone) as Esd. pose proof (Hcnt rbclear) as Erb.
+  pose proof (Hcnt prestart) as Eps. pose proof (Hcnt inloop) as Elp.
+  pose proof (Hge starter) as Gsp. pose proof (Hge sdone) as Gsd. pose proof (Hge rbclear) as Grb.
+  pose proof (Hge prestart) as Gps. pose proof (Hge inloop) as Glp.
   clear Hcnt Hge Hs Hn.
-  destruct p; cbn [step_pc] in Hp; try discriminate.
-  - (* S_cas *)
-    apply andb_true_iff in Hadm as [Hd0 Hs0]; apply Nat.eqb_eq in Hd0; apply Nat.eqb_eq in Hs0.
-    destruct (st s) eqn:Est;
-     [ | destruct fail as [k|]; [destruct (k <? nmem s); [destruct k|]|] | | ];
-     inversion Hp; subst; fin.
-  - (* P_cas *) destruct (st s) eqn:Est; inversion Hp; subst; fin.
-  - (* P_load *) destruct (st s) eqn:Est; try destruct force; inversion Hp; subst; fin.
-  - inversion Hp; subst; fin.
-  - inversion Hp; subst; fin.
-  - inversion Hp; subst; fin.
-  - (* P_wait *) destruct (stopped s) eqn:Ecl; [|destruct polls]; inversion Hp; subst; fin.
-  - (* D_die *) destruct (na s) eqn:Ena; [discriminate|]. inversion Hp; subst. cls.
-    rewrite Nat.eqb_refl in *. fin.
-  - (* D_delete *)
-    cls. destruct (Nat.eqb_spec g (gen s)) as [Eg|Eg]; cbn [negb andb] in *;
-     [ destruct (Nat.ltb_spec 0 (ng s)) | ]; inversion Hp; subst; fin.
-  - (* D_mode *) destruct (rule_fires (mode s) r); inversion Hp; subst; fin.
-  - (* D_stopping *) destruct (st s) eqn:Est; inversion Hp; subst; fin.
-  - inversion Hp; subst; fin.
-  - inversion Hp; subst; fin.
-  - (* D_len *) destruct (Nat.ltb_spec 0 (ng s)); inversion Hp; subst; fin.
-  - inversion Hp; subst; fin.
-  - (* D_loaded *) destruct (st s) eqn:Est; inversion Hp; subst; fin.
-  - inversion Hp; subst; fin.
-  - inversion Hp; subst; fin.
-  - (* U_cas *)
-    apply andb_true_iff in Hadm as [Hd0 Hs0]; apply Nat.eqb_eq in Hd0; apply Nat.eqb_eq in Hs0.
-    destruct (st s) eqn:Est; inversion Hp; subst; fin.
+  destruct HA as (A1 & A2 & A3 & A4 & A5 & _).
+  step_cases s p Hp Hadm.
+Qed.
+
+Lemma IC2_step c i c' : IA c -> IB c -> IC1 c -> IC2 c -> adm c i = true -> step c i = Some c' -> IC2 c'.
+Proof.
+  intros HA HB HC1 HC Hadm Hs. open_step c i c' Hs Hadm p s' p' Hn Hp Hcnt Hge.
+  unfold IA, IB, IC1, IC2 in *. rewrite Hsh in *. clear Hsh.
+  pose proof (count_le pastflag busy (thr c) pastflag_busy) as Bpf.
+  pose proof (count_le finaliser pastflag (thr c') finaliser_pastflag) as Lfi.
+  remember (sh c) as s eqn:Heqs. clear Heqs.
+  pose proof (b2n_le1 (starting s)) as Hb1. pose proof (b2n_le1 (stopped s)) as Hb2.
+  pose proof (Hcnt pastflag) as Epf. pose proof (Hcnt finaliser) as Efi. pose proof (Hcnt call_inflight) as Edz.
+  pose proof (Hcnt starter) as Esp. pose proof (Hcnt inloop) as Elp. pose proof (Hcnt prestart) as Eps.
+  pose proof (Hge pastflag) as Gpf. pose proof (Hge finaliser) as Gfi. pose proof (Hge call_inflight) as Gdz.
+  pose proof (Hge starter) as Gsp. pose proof (Hge inloop) as Glp. pose proof (Hge prestart) as Gps.
+  clear Hcnt Hge Hs Hn.
+  destruct HA as (_ & _ & A3 & A4 & _ & A6).
+  destruct HB as (_ & _ & _ & _ & _ & _ & B7).
+  destruct HC1 as (C1 & _ & C3 & C4).
+  step_cases s p Hp Hadm.
+Qed.
+
+Lemma ID_step c i c' : ID c -> adm c i = true -> step c i = Some c' -> ID c'.
+Proof.
+  intros HD Hadm Hs. open_step c i c' Hs Hadm p s' p' Hn Hp Hcnt Hge.
+  unfold ID in *. rewrite Hsh in *. clear Hsh.
+  remember (sh c) as s eqn:Heqs. clear Heqs.
+  pose proof (b2n_le1 (toldall s)) as Hb1.
+  pose proof (Hcnt pretell) as Ept. pose proof (Hge pretell) as Gpt.
+  clear Hcnt Hge Hs Hn.
+  step_cases s p Hp Hadm.
+Qed.
+
+Lemma Inv_step c i c' : Inv c -> adm c i = true -> step c i = Some c' -> Inv c'.
+Proof.
+  intros (HA & HB & HC1 & HC2 & HD) Hadm Hs.
+  pose proof (IA_step c i c' HA Hadm Hs) as HA'.
+  exact (conj HA' (conj (IB_step c i c' HA HA' HB Hadm Hs) (conj (IC1_step c i c' HA HC1 Hadm Hs)
+           (conj (IC2_step c i c' HA HB HC1 HC2 Hadm Hs) (ID_step c i c' HD Hadm Hs))))).
 Qed.
 
 (* ---- reachable configurations --------------------------------------------------------- *)
@@ -177,33 +338,48 @@ Section Reachable.
   Hypothesis Hinit : forallb initial_pc threads = true.
   Let c := run_adm sched (init_cfg n m threads).
 
-  (* the Terminate callback runs at most once per run (= per successful CAS Loaded->Running), and
-     never while the application is still running / stopping *)
+  (* the Terminate callback runs at most once per run (= per successful CAS Loaded->Running), never
+     while the application is still running / stopping, and only after the Start callback of the same
+     run (which runs at most once) - whatever dies or is stopped during the spawn loop *)
   Theorem terminate_once :
-    runterms (sh c) <= 1 /\ (st (sh c) = SR \/ st (sh c) = SS -> runterms (sh c) = 0).
+    runterms (sh c) <= 1 /\ (st (sh c) = SR \/ st (sh c) = SS -> runterms (sh c) = 0) /\
+    runstarts (sh c) <= 1 /\ (runterms (sh c) >= 1 -> runstarts (sh c) = 1).
   Proof.
-    destruct (Inv_reachable n m threads sched Hinit) as (A & B & C & D & E & F & _). fold c in A, B, C, D, E, F.
-    split; [lia | intros H].
-    assert (H2 : stc (st (sh c)) >= 2) by (destruct H as [H|H]; rewrite H; cbn [stc]; lia).
-    specialize (F H2); lia.
+    destruct (Inv_reachable n m threads sched Hinit) as (_ & _ & HC1 & HC2 & _). fold c in HC1, HC2.
+    destruct HC1 as (_ & _ & _ & C4). destruct HC2 as (_ & D2 & D3 & _ & _ & D6).
+    split; [lia|]. split; [|split; [exact C4 | intros; apply D6; lia]].
+    intros H. assert (H2 : stc (st (sh c)) >= 2) by (destruct H as [H|H]; rewrite H; cbn [stc]; lia).
+    specialize (D3 H2); lia.
   Qed.
 
-  (* back to loaded = nothing is left: no member registered in the node, the group is empty *)
-  Theorem loaded_clean : st (sh c) = SL \/ st (sh c) = SUnl -> na (sh c) = 0 /\ ng (sh c) = 0.
+  (* while start is spawning the members / running the Start callback nobody is past the flag check:
+     the run is not being finalised *)
+  Theorem no_finalise_while_starting :
+    starting (sh c) = true -> count pastflag (thr c) = 0 /\ count finaliser (thr c) = 0.
   Proof.
-    destruct (Inv_reachable n m threads sched Hinit) as (A & B & _). fold c in A, B.
-    intros H.
+    destruct (Inv_reachable n m threads sched Hinit) as (HA & _ & _ & HC2 & _). fold c in HA, HC2.
+    destruct HA as (_ & _ & _ & _ & _ & A6). destruct HC2 as (D1 & _).
+    intros H. rewrite H in A6. cbn [b2n] in A6.
+    assert (count pastflag (thr c) = 0) by (destruct (count pastflag (thr c)); [reflexivity | assert (1 = 0) by (apply A6; lia); lia]).
+    split; lia.
+  Qed.
+
+  (* every pid in the group is the pid of a member that is still registered in the node or whose
+     terminate call is on its way to delete it: no dead pid stays in the group *)
+  Theorem group_exact : na (sh c) + count (deleter (gen (sh c))) (thr c) = ng (sh c).
+  Proof. destruct (Inv_reachable n m threads sched Hinit) as (_ & HB & _). fold c in HB. apply HB. Qed.
+
+  (* back to loaded = nothing is left: no member registered in the node, the group is empty - unless a
+     failed start has just been rolled back and a member it killed has not terminated yet (rbk) *)
+  Theorem loaded_clean :
+    st (sh c) = SL \/ st (sh c) = SUnl -> rbk (sh c) = false -> na (sh c) = 0 /\ ng (sh c) = 0.
+  Proof.
+    destruct (Inv_reachable n m threads sched Hinit) as (_ & HB & _). fold c in HB.
+    destruct HB as (B1 & _ & _ & _ & B5 & _).
+    intros H Hr. rewrite Hr in B5. cbn [b2n] in B5.
     assert (H2 : stc (st (sh c)) <= 1) by (destruct H as [H|H]; rewrite H; cbn [stc]; lia).
-    specialize (B H2). lia.
+    specialize (B5 H2). lia.
   Qed.
-
-  (* ... and can be started again: the start succeeds, all members run, one Start callback *)
-  Theorem restartable mode' :
-    st (sh c) = SL ->
-    step_pc (sh c) (S_cas mode' None) = Some (started (sh c) mode', Done 0) /\
-    st (started (sh c) mode') = SR /\ na (started (sh c) mode') = nmem (sh c) /\
-    starts (started (sh c) mode') = S (starts (sh c)) /\ runterms (started (sh c) mode') = 0.
-  Proof. intros H. cbn [step_pc]. rewrite H. repeat split. Qed.
 
   (* a stop call that is about to return success (from the wait on the stopped channel, or because
      it found the application loaded) does so in a state where every member has terminated *)
@@ -213,43 +389,124 @@ Section Reachable.
   Theorem stop_truthful i p s' :
     nth_error (thr c) i = Some p -> returns_ok p = true ->
     step_pc (sh c) p = Some (s', Done 0) ->
-    na (sh c) = 0 /\ ng (sh c) = 0.
+    rbk (sh c) = false -> na (sh c) = 0 /\ ng (sh c) = 0.
   Proof.
-    destruct (Inv_reachable n m threads sched Hinit) as (A & B & C & D & _). fold c in A, B, C, D.
-    intros Hn Hr Hs. destruct p; try discriminate; cbn [step_pc] in Hs.
-    - destruct (st (sh c)) eqn:Est; cbn [stc] in B;
-        try (assert (ng (sh c) = 0) by (apply B; lia); lia);
-        destruct force; try discriminate; cbn [ast_eqb] in Hs; discriminate.
-    - destruct (stopped (sh c)) eqn:Ec; [cbn [b2n] in D; specialize (D eq_refl); lia|].
-      destruct polls; discriminate.
+    destruct (Inv_reachable n m threads sched Hinit) as (_ & HB & _ & HC2 & _). fold c in HB, HC2.
+    destruct HB as (B1 & _ & _ & _ & B5 & _). destruct HC2 as (_ & _ & _ & _ & D5 & _).
+    intros Hn Hr Hs Hk. rewrite Hk in B5. cbn [b2n] in B5.
+    assert (stc (st (sh c)) <= 1) as Hle.
+    { destruct p; try discriminate; cbn [step_pc] in Hs.
+      - destruct (st (sh c)) eqn:Est; cbn [stc]; try lia;
+          destruct force; try discriminate; cbn [ast_eqb] in Hs; discriminate.
+      - destruct (stopped (sh c)) eqn:Ec; [cbn [b2n] in D5; apply D5; reflexivity|].
+        destruct polls; discriminate. }
+    specialize (B5 Hle). lia.
   Qed.
 
-  (* once the application is stopping, every member still in the group has been told to terminate,
-     or the thread that switched the state is on its way to tell them (it is between its CAS and
-     its SendExit loop) *)
+  (* once the application is stopping, every member whose start call is past its check has been told
+     to terminate, or the thread that switched the state is on its way to tell them (it is between
+     its CAS and its SendExit loop); a member spawned later is told by the check of the start call *)
   Theorem stopping_tells_all :
     st (sh c) = SS -> toldall (sh c) = true \/ count pretell (thr c) >= 1.
   Proof.
-    destruct (Inv_reachable n m threads sched Hinit) as (_ & _ & _ & _ & _ & _ & _ & H & _). fold c in H.
-    intros Hs. rewrite Hs in H. cbn [stc] in H. destruct (H eq_refl) as [Ht|Ht]; [left|right; exact Ht].
+    destruct (Inv_reachable n m threads sched Hinit) as (_ & _ & _ & _ & H). fold c in H.
+    intros Hs. unfold ID, InvD in H. rewrite Hs in H. cbn [stc] in H.
+    destruct (H eq_refl) as [Ht|Ht]; [left|right; exact Ht].
     destruct (toldall (sh c)); [reflexivity | discriminate].
   Qed.
 End Reachable.
 
+(* a member spawned while the application is no longer running is told by the start call itself *)
+Theorem late_member_told s fail k :
+  st s <> SR -> step_pc s (S_chk fail k) = Some (s, S_spawn fail (S k)).
+Proof. intros H. cbn [step_pc]. destruct (st s); congruence. Qed.
+
 (* the mode rule at the step where a dying member consults it: the state goes to Stopping exactly
    for Permanent / Transient+abnormal, and that thread then writes its reason and tells the group *)
 Theorem mode_rule_step s r :
-  step_pc s (D_mode r) = Some (s, if rule_fires (mode s) r then D_stopping r else D_len) /\
+  step_pc s (D_mode r) = Some (s, if rule_fires (mode s) r then D_stopping r else D_starting) /\
   (st s = SR -> step_pc s (D_stopping r) = Some (upd_st s SS, D_reason r)) /\
   step_pc s (D_reason r) = Some (upd_reason s (Some r), D_tell) /\
-  step_pc s D_tell = Some (upd_told s, D_len).
+  step_pc s D_tell = Some (upd_told s true, D_starting).
 Proof.
   repeat split; cbn [step_pc]; [destruct (rule_fires (mode s) r); reflexivity | intros H; rewrite H; reflexivity].
 Qed.
 
-(* Temporary: the last member to leave the group finalises the run *)
-Theorem last_member_finalises s : ng s = 0 -> step_pc s D_len = Some (s, D_default).
-Proof. intros H. cbn [step_pc]. rewrite H. reflexivity. Qed.
+(* Temporary: the last member to leave the group finalises the run (once start is through) *)
+Theorem last_member_finalises s :
+  starting s = false -> ng s = 0 ->
+  step_pc s D_starting = Some (s, D_len) /\ step_pc s D_len = Some (s, D_default).
+Proof. intros H1 H2. cbn [step_pc]. rewrite H1, H2. split; reflexivity. Qed.
+
+(* ---- back to loaded = restartable ------------------------------------------------------- *)
+(* the start call of a loaded application whose members have all gone, run alone: CAS, one spawn and
+   one check per member, Start callback, flag reset, final look at the group *)
+Lemma run_one s p tl s' p' :
+  step_pc s p = Some (s', p') -> run (0 :: tl) (mk_cfg s [p]) = run tl (mk_cfg s' [p']).
+Proof. intros H. cbn [run step thr sh nth_error]. rewrite H. reflexivity. Qed.
+
+Lemma rep_SS i d : rep i (2 * S d) = i :: i :: rep i (2 * d).
+Proof. replace (2 * S d) with (S (S (2 * d))) by lia. reflexivity. Qed.
+
+Lemma rep_app i a b : rep i (a + b) = rep i a ++ rep i b.
+Proof. induction a as [|a IH]; [reflexivity|]. cbn [Nat.add rep List.app]. rewrite IH. reflexivity. Qed.
+
+Lemma run_app s1 s2 c : run (s1 ++ s2) c = run s2 (run s1 c).
+Proof. revert c; induction s1 as [|i tl IH]; intros c; [reflexivity|]. cbn [List.app run]. destruct (step c i); apply IH. Qed.
+
+Lemma loop_alone d : forall s k,
+  nmem s = k + d -> st s = SR ->
+  exists s', run (rep 0 (2 * d)) (mk_cfg s [S_spawn None k]) = mk_cfg s' [S_spawn None (k + d)] /\
+    st s' = SR /\ na s' = na s + d /\ ng s' = ng s + d /\ nmem s' = nmem s /\ starts s' = starts s /\
+    runstarts s' = runstarts s /\ runterms s' = runterms s /\ starting s' = starting s /\ gen s' = gen s.
+Proof.
+  induction d as [|d IH]; intros s k Hn Hs.
+  - exists s. cbn [Nat.mul rep run]. rewrite !Nat.add_0_r. repeat split; try reflexivity; assumption.
+  - rewrite rep_SS.
+    assert (E1 : step_pc s (S_spawn None k) = Some (spawned s, S_chk None k)).
+    { cbn [step_pc fails_at]. destruct (Nat.ltb_spec k (nmem s)); [reflexivity | lia]. }
+    rewrite (run_one _ _ _ _ _ E1).
+    assert (E2 : step_pc (spawned s) (S_chk None k) = Some (upd_told (spawned s) false, S_spawn None (S k))).
+    { cbn [step_pc spawned upd st]. rewrite Hs. reflexivity. }
+    rewrite (run_one _ _ _ _ _ E2).
+    destruct (IH (upd_told (spawned s) false) (S k)) as (s' & R & A1 & A2 & A3 & A4 & A5 & A6 & A7 & A8 & A9).
+    { cbn [upd_told spawned upd nmem]. lia. }
+    { cbn [upd_told spawned upd st]. exact Hs. }
+    exists s'. cbn [upd_told spawned upd st na ng nmem starts runstarts runterms starting gen] in *.
+    replace (k + S d) with (S k + d) by lia.
+    repeat split; try assumption; lia.
+Qed.
+
+Theorem restartable s mode' :
+  st s = SL -> na s = 0 -> ng s = 0 -> 0 < nmem s ->
+  exists s', run (rep 0 (2 * nmem s + 5)) (mk_cfg s [S_cas mode' None]) = mk_cfg s' [Done 0] /\
+    st s' = SR /\ na s' = nmem s /\ ng s' = nmem s /\ starts s' = S (starts s) /\
+    runstarts s' = 1 /\ runterms s' = 0 /\ starting s' = false /\ gen s' = S (gen s).
+Proof.
+  intros Hs Ha Hg Hpos.
+  replace (2 * nmem s + 5) with (1 + (2 * nmem s + 4)) by lia. cbn [Nat.add rep].
+  assert (E0 : step_pc s (S_cas mode' None) = Some (run_begin s mode', S_spawn None 0)).
+  { cbn [step_pc]. rewrite Hs. reflexivity. }
+  rewrite (run_one _ _ _ _ _ E0). rewrite rep_app, run_app.
+  destruct (loop_alone (nmem s) (run_begin s mode') 0) as (s1 & R & A1 & A2 & A3 & A4 & A5 & A6 & A7 & A8 & A9);
+    [reflexivity | reflexivity |].
+  rewrite R. cbn [run_begin st na ng nmem starts runstarts runterms starting gen Nat.add] in *.
+  cbn [rep].
+  assert (E1 : step_pc s1 (S_spawn None (nmem s)) = Some (s1, S_cb)).
+  { cbn [step_pc]. rewrite A4. rewrite Nat.ltb_irrefl. reflexivity. }
+  rewrite (run_one _ _ _ _ _ E1).
+  assert (E2 : step_pc s1 S_cb = Some (add_start s1, S_done)) by reflexivity.
+  rewrite (run_one _ _ _ _ _ E2).
+  assert (E3 : step_pc (add_start s1) S_done = Some (upd_starting (add_start s1) false, S_len)) by reflexivity.
+  rewrite (run_one _ _ _ _ _ E3).
+  set (s2 := upd_starting (add_start s1) false).
+  assert (E4 : step_pc s2 S_len = Some (s2, Done 0)).
+  { subst s2. cbn [step_pc upd_starting add_start upd ng]. rewrite A3, Hg. cbn [Nat.add].
+    destruct (Nat.ltb_spec 0 (nmem s)); [reflexivity | lia]. }
+  rewrite (run_one _ _ _ _ _ E4). cbn [run].
+  exists s2. subst s2. cbn [upd_starting add_start upd st na ng starts runstarts runterms starting gen].
+  repeat split; try lia; try assumption; congruence.
+Qed.
 
 (* ---- what goes wrong without the guard (known finding restart-race) --------------------- *)
 (* two members of a temporary application die concurrently; both see the group empty; one finalises;
@@ -257,7 +514,7 @@ Proof. intros H. cbn [step_pc]. rewrite H. reflexivity. Qed.
    closes its channel and runs the Terminate callback while its two members are alive *)
 Definition race_threads : list pc := [S_cas 1 None; D_die 0; D_die 0; S_cas 1 None].
 Definition race_sched : list nat :=
-  [0; 1; 1; 1; 2; 2; 2; 1; 2; 2; 2; 2; 2; 3; 1; 1; 1; 1].
+  rep 0 9 ++ rep 1 4 ++ rep 2 5 ++ [1] ++ rep 2 4 ++ rep 3 9 ++ rep 1 4.
 (* boolean form: the application is Loaded, both members of the new run are alive, the Terminate
    callback has run twice and the new run's stopped channel is closed *)
 Definition restart_race_b (threads : list pc) (sched : list nat) : bool :=
@@ -275,12 +532,35 @@ Example restart_race_guarded :
   na (sh (run_adm race_sched (init_cfg 2 1 race_threads))) = 0.
 Proof. split; vm_compute; reflexivity. Qed.
 
-(* the hypotheses are satisfiable by a non-trivial run: permanent application, two members, one dies
-   abnormally while a stop call and the other member's death race; the run ends loaded, one callback *)
+(* the hypotheses are satisfiable by non-trivial runs.
+   (1) temporary application, three member specs: member 0 terminates right after its spawn (before the
+   check of the start call), ApplicationStop is called while member 1 is being started, member 2 is
+   spawned into the stopping application and told by the start call; the Start callback runs, then the
+   last member to go finalises the run: loaded, nobody left, Start once, Terminate once with `shutdown`,
+   the stop call returns success. *)
+Example start_loop_run_nontrivial :
+  let c := run_adm ([0; 0] ++ rep 1 4 ++ [0; 0] ++ rep 2 4 ++ rep 0 8 ++ rep 3 9 ++ rep 4 9 ++ rep 2 3)
+                   (init_cfg 3 1 [S_cas 1 None; D_die 0; P_cas false 3; D_die 1; D_die 1]) in
+  st (sh c) = SL /\ na (sh c) = 0 /\ ng (sh c) = 0 /\ terms (sh c) = [1] /\ starts (sh c) = 1 /\
+  thr c = [Done 0; Done 0; Done 0; Done 0; Done 0].
+Proof. vm_compute. repeat split. Qed.
+
+(* (2) every member terminates while start is still in its loop (temporary, two members, both die
+   `normal` right after their spawn): nobody finalises the run until the Start callback has run, then the
+   start call itself ends the run: Start once, then Terminate(normal), loaded. *)
+Example start_finalises_itself :
+  let c := run_adm ([0; 0] ++ rep 1 4 ++ [0; 0] ++ rep 2 4 ++ rep 0 12)
+                   (init_cfg 2 1 [S_cas 1 None; D_die 0; D_die 0]) in
+  st (sh c) = SL /\ na (sh c) = 0 /\ ng (sh c) = 0 /\ terms (sh c) = [0] /\ starts (sh c) = 1 /\
+  thr c = [Done 0; Done 0; Done 0].
+Proof. vm_compute. repeat split. Qed.
+
+(* (3) permanent application, two members, one dies abnormally while a stop call and the other
+   member's death race; the run ends loaded, one callback *)
 Example guarded_run_nontrivial :
-  let c := run_adm [0; 1; 1; 3; 3; 1; 2; 2; 1; 1; 3; 2; 2; 2; 2; 2; 2; 2; 1; 1; 1; 3; 3; 3; 3; 3; 3; 1; 1; 1; 1; 2; 2; 2; 2; 3; 3; 3]
+  let c := run_adm (rep 0 9 ++ [1; 1; 3; 3; 1; 2; 2; 1; 1; 3; 2; 2; 2; 2; 2; 2; 2; 2; 1; 1; 1; 1; 3; 3; 3; 3; 3; 3; 1; 1; 1; 1; 2; 2; 2; 2; 3; 3; 3])
                    (init_cfg 2 3 [S_cas 3 None; D_die 4; D_die 1; P_cas false 3]) in
-  st (sh c) = SL /\ na (sh c) = 0 /\ terms (sh c) = [1] /\ starts (sh c) = 1 /\
+  st (sh c) = SL /\ na (sh c) = 0 /\ length (terms (sh c)) = 1 /\ starts (sh c) = 1 /\
   thr c = [Done 0; Done 0; Done 0; Done 0].
 Proof. vm_compute. repeat split. Qed.
 
@@ -290,7 +570,7 @@ Proof. vm_compute. repeat split. Qed.
    callback - the second member finalises the run between the first one's CAS and its write.
    The schedule respects the guard. *)
 Definition cause_threads : list pc := [S_cas 3 None; D_die 4; D_die 3].
-Definition cause_sched : list nat := [0; 1; 1; 1; 1; 2; 2; 2; 2; 2; 2; 2; 2; 2; 1; 1; 1; 1; 1].
+Definition cause_sched : list nat := rep 0 9 ++ rep 1 4 ++ rep 2 10 ++ rep 1 6.
 Definition cause_race_b (threads : list pc) (sched : list nat) : bool :=
   let c := run_adm sched (init_cfg 2 3 threads) in
   ast_eqb (st (sh c)) SL && (na (sh c) =? 0) &&
@@ -300,6 +580,22 @@ Theorem cause_race_refuted :
   exists threads sched, forallb initial_pc threads = true /\ cause_race_b threads sched = true.
 Proof. exists cause_threads, cause_sched. split; vm_compute; reflexivity. Qed.
 
+(* ---- a failed start while a started member is busy (known finding rollback-busy) ---------- *)
+(* the roll-back of a failed start kills the members started so far and stores Loaded at once; a
+   member that is inside a callback terminates only when it leaves it.  Guarded schedule: member 1 of
+   a permanent application refuses to start, member 0 has not terminated yet: the application is
+   loaded with a live member, the start has returned its error and a stop call reports success. *)
+Definition rollback_threads : list pc := [S_cas 3 (Some 1); P_cas false 3].
+Definition rollback_sched : list nat := rep 0 7 ++ rep 1 2.
+Definition rollback_busy_b (threads : list pc) (sched : list nat) : bool :=
+  let c := run_adm sched (init_cfg 2 3 threads) in
+  ast_eqb (st (sh c)) SL && (na (sh c) =? 1) && rbk (sh c) &&
+  match thr c with [Done 7; Done 0] => true | _ => false end.
+
+Theorem rollback_busy_refuted :
+  exists threads sched, forallb initial_pc threads = true /\ rollback_busy_b threads sched = true.
+Proof. exists rollback_threads, rollback_sched. split; vm_compute; reflexivity. Qed.
+
 (* what does hold for every guarded schedule: the reason handed over is the content of a.reason,
    which only ever holds a reason written by a stop call, by a member whose death switched the
-   state, or `normal` - and in the sequential model (App/SeqProofs.v) it is exactly the cause. *)
+   state, or `normal` - and in the sequential model (App/SeqProofs.v, App/SeqHist.v) it is exactly the cause. *)
